@@ -203,7 +203,7 @@ fn battery_spec(fuel: u64) -> crate::host::RunSpec {
         withhold_imports: false,
         linked_promises: false,
         host_activity_pm: 0,
-        internal_sources: Default::default(), stale_answer_ids: Vec::new(),
+        internal_sources: Default::default(), stale_answer_ids: Vec::new(), stub_then_real: false,
     }
 }
 
